@@ -171,13 +171,8 @@ func FuzzObjectBytes(f *testing.F) {
 }
 
 func init() {
-	prev := replayers["C19"]
-	replayers["C19"] = func(t *testing.T, prog *Program) {
-		if which, ok := prog.Aux["fuzz"].(string); ok {
-			data, _ := base64.StdEncoding.DecodeString(prog.Aux["data"].(string))
-			fuzzBattery(t, which, data)
-			return
-		}
-		prev(t, prog)
-	}
+	replayAlts = append(replayAlts, replayAlt{"C19", hasAux("fuzz"), func(t *testing.T, prog *Program) {
+		data, _ := base64.StdEncoding.DecodeString(prog.Aux["data"].(string))
+		fuzzBattery(t, prog.Aux["fuzz"].(string), data)
+	}})
 }
